@@ -672,7 +672,7 @@ def flatten_out(v):
     return [v]
 
 
-def check_backward(S, rec, diff_slots, needs, margin, label):
+def check_backward(S, rec, diff_slots, needs, margin, label, canon=None):
     """Run rec.cls.backward on fresh cotangents and compare with the transposed forward operator.
     rec: ApplyRecord whose tensor inputs are base tensors.  Returns list of (slot, what, msg)."""
     from ..pyinterp import StaticMethod, PyFunc
@@ -735,6 +735,9 @@ def check_backward(S, rec, diff_slots, needs, margin, label):
         diffs = []
         for idx, e in exp.items():
             act = g.cells[idx]
+            if canon is not None:
+                act = tuple(Term(t.base, t.bchan, [tb.subst(canon) for tb in t.tables], t.coef) for t in act)
+                e = tuple(Term(t.base, t.bchan, [tb.subst(canon) for tb in t.tables], t.coef) for t in e)
             if cells_equal(act, e):
                 continue
             diffs.append(classify_adj(act, e, margin))
